@@ -278,7 +278,7 @@ def validate_trace(module, trace_path, name, chunk_events=1500, par=8, timeout=1
     cfg = consts + TRACE_CFG
     pending = list(chunks)
     running = []
-    res = {"events": len(lines), "chunks": len(chunks), "accepted_chunks": 0, "rejects": [], "states": 0, "wall_s": 0}
+    res = {"events": len(lines), "chunks": len(chunks), "accepted_chunks": 0, "rejects": [], "states": 0, "wall_s": 0, "notes": 0}
     t0 = time.time()
 
     def launch(ch):
@@ -313,6 +313,7 @@ def validate_trace(module, trace_path, name, chunk_events=1500, par=8, timeout=1
             if pr.returncode == 124:
                 raise ToolError("trace validation timed out on " + ch[0])
             flat = re.sub(r"\s+", " ", txt)
+            res["notes"] += flat.count('"TRACE-NOTE"')
             rejs = re.findall(r'<< ?"TRACE-REJECT", (\d+), (.*?)>> TRUE', flat)
             stopped = re.search(r'<<"TRACE-STOPPED-AT", (\d+)>>', txt)
             res["discarded"] = res.get("discarded", 0) + len(re.findall(r'"[A-Z]+-DISCARDED"', txt))
